@@ -578,9 +578,15 @@ func (t *vfTree) step() bool {
 		if t.forced != nil {
 			target = t.forced.target
 		}
-		t.ops = append(t.ops, fmt.Sprintf("SYMLINK %s %q -> %q", h.path, name, target))
+		// symlink_attributes may carry a mode (a link's mode cannot be set, whatever is reported must be
+		// what the backend's lstat says)
+		linkAttrs := sattrNone
+		if lm := []uint32{0, 0, 0640, 0600, 0755, 0777, 0}[t.rng.Intn(7)]; lm != 0 {
+			linkAttrs = xdrw.Sattr3{Mode: &lm}
+		}
+		t.ops = append(t.ops, fmt.Sprintf("SYMLINK %s %q -> %q (mode in symlink_attributes: %v)", h.path, name, target, linkAttrs.Mode != nil))
 		vals := make([]uint64, K)
-		if !run(func(i int) (*rfc.Res, error) { return t.cl[i].symlink(h.val[i], name, target, sattrNone) }, func(i int, r *rfc.Res) string {
+		if !run(func(i int) (*rfc.Res, error) { return t.cl[i].symlink(h.val[i], name, target, linkAttrs) }, func(i int, r *rfc.Res) string {
 			if r.Status == 0 {
 				vals[i] = vfFH(r.FH)
 				t.obsPost(i, proc, "obj", child, r.Obj)
@@ -802,11 +808,12 @@ func (t *vfTree) step() bool {
 					t.observe(i, "GETATTR", "obj-after-SETATTR", h.path, g.Attr, false, 0)
 				}
 				e, _ := t.model.Peek(h.path)
-				if e.Kind == refs.KDir && !vfPathHasSymlink(t.model, h.path) {
+				// (through a file or a link as well: the NOTDIR reply carries the object's attributes)
+				if !vfPathHasSymlink(t.model, path.Dir(h.path)) {
 					nm := vfTreeNames[t.rng.Intn(4)]
 					_, exists := t.model.Peek(path.Join(h.path, nm))
 					if l, err := t.cl[i].lookup(h.val[i], nm); err == nil && l != nil {
-						if exists && l.Status == 20 {
+						if e.Kind == refs.KDir && exists && l.Status == 20 {
 							t.fail("C04/directory-no-longer-treated-as-directory-after-SETATTR", fmt.Sprintf("%s then LOOKUP %q through the same handle answered NOTDIR", t.ops[len(t.ops)-1], nm))
 						}
 						if l.Status == 0 {
